@@ -2920,6 +2920,32 @@ func TestBigFloat_LaxEqual(t *testing.T) {
 			want: value.False.ToValue(),
 		},
 
+		"UInt 5bf =~ 5u": {
+			a:    value.NewBigFloat(5),
+			b:    value.UInt(5).ToValue(),
+			want: value.True.ToValue(),
+		},
+		"UInt 0bf =~ 0u": {
+			a:    value.NewBigFloat(0),
+			b:    value.UInt(0).ToValue(),
+			want: value.True.ToValue(),
+		},
+		"UInt 5.5bf =~ 5u": {
+			a:    value.NewBigFloat(5.5),
+			b:    value.UInt(5).ToValue(),
+			want: value.False.ToValue(),
+		},
+		"UInt 4bf =~ 5u": {
+			a:    value.NewBigFloat(4),
+			b:    value.UInt(5).ToValue(),
+			want: value.False.ToValue(),
+		},
+		"UInt NaN =~ 5u": {
+			a:    value.BigFloatNaN(),
+			b:    value.UInt(5).ToValue(),
+			want: value.False.ToValue(),
+		},
+
 		"UInt64 5bf =~ 5u64": {
 			a:    value.NewBigFloat(5),
 			b:    value.UInt64(5).ToValue(),
